@@ -180,65 +180,115 @@ func swapC10(c *Ctx, tt *tokenTable, ce, gtr *ssa.Function) {
 			}
 		}
 	}
-	if len(sites) != 2 || len(opLoads) == 0 {
-		c.Unk("C10.swap", "conditionExpr: getTimeRange call sites", ce.Pos(), fmt.Sprintf("expected two calls (time on the left, time on the right), found %d", len(sites)))
+	if len(sites) == 0 || len(opLoads) == 0 {
+		c.Unk("C10.swap", "conditionExpr: getTimeRange call sites", ce.Pos(), fmt.Sprintf("found %d calls of getTimeRange", len(sites)))
 		return
 	}
 	mirror := map[string]string{">": "<", "<": ">", ">=": "<=", "<=": ">="}
-	for _, site := range sites {
-		_, operand, ok := fieldRef(site.Call.Args[1])
-		if !ok {
-			c.Unk("C10.swap", "conditionExpr: operand of getTimeRange", site.Pos(), "second argument is not the LHS/RHS field of the condition")
-			continue
-		}
-		// recogniser: nearest dominating assertion to *VarRef
-		recog := ""
-		folded := false
-		for b := site.Block(); b != nil; b = b.Idom() {
-			for _, in := range b.Instrs {
-				switch x := in.(type) {
-				case *ssa.TypeAssert:
-					if recog == "" && p.TypeStr(x.AssertedType) == "*VarRef" {
-						if _, fld, ok := fieldRef(x.X); ok {
-							recog = fld
-						}
-					}
-				case *ssa.BinOp:
-					if x.Op == token.EQL {
-						if k, ok := x.Y.(*ssa.Const); ok && k.Value != nil && k.Value.Kind() == constant.String && constant.StringVal(k.Value) == "time" {
-							if call, ok := x.X.(*ssa.Call); ok {
-								if cal := call.Call.StaticCallee(); cal != nil && cal.Name() == "ToLower" {
-									folded = true
-								}
-							}
-						}
-					}
+	// the two recognisers: x.LHS.(*VarRef) / x.RHS.(*VarRef), their ok results
+	// and the comparisons of the asserted name with "time"
+	asserts := map[string]*ssa.TypeAssert{}
+	for _, b := range ce.Blocks {
+		for _, in := range b.Instrs {
+			if ta, ok := in.(*ssa.TypeAssert); ok && p.TypeStr(ta.AssertedType) == "*VarRef" {
+				if _, fld, ok := fieldRef(ta.X); ok && (fld == "LHS" || fld == "RHS") && asserts[fld] == nil {
+					asserts[fld] = ta
 				}
 			}
-			if recog != "" && folded {
-				break
+		}
+	}
+	if asserts["LHS"] == nil || asserts["RHS"] == nil {
+		c.Unk("C10.swap", "conditionExpr: recognisers", ce.Pos(), "no *VarRef assertion on both operand fields of the condition")
+		return
+	}
+	okOf := map[string][]ssa.Value{}
+	cmpOf := map[string][]ssa.Value{}
+	foldedSide := map[string]bool{}
+	exactSide := map[string]bool{}
+	for side, ta := range asserts {
+		for _, ref := range *ta.Referrers() {
+			if ex, ok := ref.(*ssa.Extract); ok && ex.Index == 1 {
+				okOf[side] = append(okOf[side], ex)
 			}
 		}
+	}
+	for _, b := range ce.Blocks {
+		for _, in := range b.Instrs {
+			bo, ok := in.(*ssa.BinOp)
+			if !ok || bo.Op != token.EQL {
+				continue
+			}
+			k, ok := bo.Y.(*ssa.Const)
+			if !ok || k.Value == nil || k.Value.Kind() != constant.String || constant.StringVal(k.Value) != "time" {
+				continue
+			}
+			for side, ta := range asserts {
+				if call, ok := bo.X.(*ssa.Call); ok {
+					if cal := call.Call.StaticCallee(); cal != nil && cal.Name() == "ToLower" && len(call.Call.Args) == 1 && derivesFrom(call.Call.Args[0], ta, 0) {
+						cmpOf[side] = append(cmpOf[side], bo)
+						foldedSide[side] = true
+					}
+				} else if derivesFrom(bo.X, ta, 0) {
+					cmpOf[side] = append(cmpOf[side], bo)
+					exactSide[side] = true
+				}
+			}
+		}
+	}
+	for _, recog := range []string{"LHS", "RHS"} {
 		side := map[string]string{"LHS": "left", "RHS": "right"}[recog]
 		key := "conditionExpr: time on the " + side
 		other := map[string]string{"LHS": "RHS", "RHS": "LHS"}[recog]
-		if recog == "" {
-			c.Unk("C10.swap", "conditionExpr: recogniser for operand "+operand, site.Pos(), "no *VarRef assertion dominates this getTimeRange call")
+		if len(cmpOf[recog]) == 0 {
+			c.Bad("C10.swap", key+": case folding", ce.Pos(), "the name of a variable on the "+side+" is never compared with \"time\": a bound written with time on that side is not recognised")
 			continue
 		}
-		c.Check(folded, "C10.swap", key+": case folding", site.Pos(), "the name must be compared with \"time\" after strings.ToLower")
-		c.Check(operand == other, "C10.swap", key+": operand", site.Pos(), "time recognised on the "+side+" must pass the other operand ("+other+"), passes "+operand)
+		c.Check(foldedSide[recog] && !exactSide[recog], "C10.swap", key+": case folding", cmpOf[recog][0].Pos(), "the name must be compared with \"time\" after strings.ToLower")
+		scenario := func(opv int64) *sccpRun {
+			s := p.newSCCP()
+			s.override = map[ssa.Value]cval{}
+			for _, l := range opLoads {
+				s.override[l] = cConst(constant.MakeInt64(opv))
+			}
+			for sd := range asserts {
+				on := sd == recog
+				for _, v := range okOf[sd] {
+					s.override[v] = cConst(constant.MakeBool(on))
+				}
+				for _, v := range cmpOf[sd] {
+					s.override[v] = cConst(constant.MakeBool(on))
+				}
+			}
+			return s.run(ce, nil, 0)
+		}
+		operandDone := false
 		for _, v := range tt.Values {
 			sp, has := tt.Spelling[v]
 			if _, isOp := precedenceSpec[sp]; !has || !isOp || sp == "AND" || sp == "OR" {
 				continue
 			}
-			s := p.newSCCP()
-			s.override = map[ssa.Value]cval{}
-			for _, l := range opLoads {
-				s.override[l] = cConst(constant.MakeInt64(v))
+			r := scenario(v)
+			var live []*ssa.Call
+			for _, site := range sites {
+				if r.execB[site.Block().Index] {
+					live = append(live, site)
+				}
 			}
-			r := s.run(ce, nil, 0)
+			k2 := key + ": operator " + sp
+			if len(live) != 1 {
+				c.Unk("C10.swap", k2, ce.Pos(), fmt.Sprintf("with time only on the %s, %d getTimeRange calls are reachable (expected exactly one)", side, len(live)))
+				continue
+			}
+			site := live[0]
+			if !operandDone {
+				operandDone = true
+				_, operand, ok := fieldRef(site.Call.Args[1])
+				if !ok {
+					c.Unk("C10.swap", key+": operand", site.Pos(), "second argument is not the LHS/RHS field of the condition")
+				} else {
+					c.Check(operand == other, "C10.swap", key+": operand", site.Pos(), "time recognised on the "+side+" must pass the other operand ("+other+"), passes "+operand)
+				}
+			}
 			got := r.get(site.Call.Args[0])
 			want := sp
 			if recog == "RHS" {
@@ -246,7 +296,6 @@ func swapC10(c *Ctx, tt *tokenTable, ce, gtr *ssa.Function) {
 					want = m
 				}
 			}
-			k2 := key + ": operator " + sp
 			if !got.isPlain() {
 				c.Unk("C10.swap", k2, site.Pos(), "operator handed to getTimeRange is not a function of the condition's operator")
 				continue
